@@ -161,6 +161,8 @@ def showErr : ParseErr → String
   | .multipleElementsAtTopLevel sp => s!"err:MultipleElementsAtTopLevel {sp.start} {sp.stop}"
   | .textAtTopLevel sp => s!"err:TextAtTopLevel {sp.start} {sp.stop}"
   | .duplicateId v sp => s!"err:DuplicateId {sp.start} {sp.stop} {encStr v}"
+  | .invalidNamespaceDeclaration n sp => s!"err:InvalidNamespaceDeclaration {sp.start} {sp.stop} {encStr n}"
+  | .invalidTarget t sp => s!"err:InvalidTarget {sp.start} {sp.stop} {encStr t}"
   | .xmlParser pos => s!"err:XmlParser {pos} {pos}"
 
 def showBuild (old : Env) : BuildResult → String
